@@ -41,7 +41,9 @@ theorem holds_mono {R1 R2 : List Block → List Nat → Prop} {o : Out} (h : Hol
     preconditions with which `visit_statement` calls them) is preserved by lifting. -/
 structure Preserved (Inv : List Block → Prop) : Prop where
   pos : ∀ bs, Inv bs → 0 < bs.length
-  append : ∀ bs s, Inv bs → Inv (appendStmt bs s)
+  simple : ∀ bs loc, Inv bs → Inv (appendStmt bs (.simple loc))
+  branch : ∀ bs loc t ps d, Inv bs → ps ≠ [] → (∀ p ∈ ps, p < bs.length) →
+    Inv (completeBlock (appendStmt bs (.branch loc t none)) ps d)
   complete : ∀ bs ps d, Inv bs → ps ≠ [] → (∀ p ∈ ps, p < bs.length) → Inv (completeBlock bs ps d)
   edges : ∀ bs fs h, Inv bs → fs ≠ [] → (∀ p ∈ fs, p < bs.length) → h < bs.length → 1 ≤ h → Inv (addEdges bs fs h)
 
@@ -92,9 +94,8 @@ theorem whilePre_inv {Inv : List Block → Prop} (hp : Preserved Inv) (loc : Loc
   unfold whilePre
   simp only
   have h1 := hp.complete bs [bs.length - 1] d h (by simp) (by intro p hp'; simp at hp'; omega)
-  have h2 := hp.append _ (.branch loc (bs.length - 1 + 2) none) h1
-  have h3 := hp.complete _ [bs.length - 1 + 1] (d + 1) h2 (by simp)
-    (by intro p hp'; simp at hp'; simp [length_appendStmt, length_completeBlock]; omega)
+  have h3 := hp.branch _ loc (bs.length - 1 + 2) [bs.length - 1 + 1] (d + 1) h1 (by simp)
+    (by intro p hp'; simp at hp'; simp [length_completeBlock]; omega)
   exact ⟨h3, by simp [length_completeBlock, length_appendStmt]⟩
 
 theorem itePre_inv {Inv : List Block → Prop} (hp : Preserved Inv) (loc : Loc) (d : Nat) (bs : List Block) (h : Inv bs) :
@@ -102,15 +103,14 @@ theorem itePre_inv {Inv : List Block → Prop} (hp : Preserved Inv) (loc : Loc) 
   have hpos := hp.pos bs h
   unfold itePre
   simp only
-  have h1 := hp.append bs (.branch loc (bs.length - 1 + 1) none) h
-  have h2 := hp.complete _ [bs.length - 1] d h1 (by simp) (by intro p hp'; simp at hp'; simp [length_appendStmt]; omega)
+  have h2 := hp.branch bs loc (bs.length - 1 + 1) [bs.length - 1] d h (by simp) (by intro p hp'; simp at hp'; omega)
   exact ⟨h2, by simp [length_completeBlock, length_appendStmt]⟩
 
 mutual
 theorem visit_inv {Inv : List Block → Prop} (hp : Preserved Inv) : ∀ (s : Stmt) (d : Nat) (bs : List Block), Inv bs →
     Holds (Rel Inv bs) (visit s d bs)
   | .simple loc, d, bs, h => by
-      rw [visit]; exact ⟨hp.append bs _ h, by simp [length_appendStmt], by simp⟩
+      rw [visit]; exact ⟨hp.simple bs _ h, by simp [length_appendStmt], by simp⟩
   | .init cs, d, bs, h => by rw [visit]; exact visitInit_inv hp cs d bs h
   | .block cs, d, bs, h => by
       rw [visit]; exact visitBlock_inv hp cs d bs [] h (by simp)
@@ -436,7 +436,9 @@ theorem shape_edges (bs : List Block) (fs : List Nat) (hd : Nat) (h : Shape bs) 
 
 theorem shape_preserved : Preserved Shape where
   pos := fun _ h => h.1
-  append := shape_append
+  simple := fun bs loc h => shape_append bs _ h
+  branch := fun bs loc t ps d h hne hps =>
+    shape_complete _ ps d (shape_append bs _ h) hne (by intro p hp; rw [length_appendStmt]; exact hps p hp)
   complete := shape_complete
   edges := shape_edges
 
